@@ -9,7 +9,7 @@ var grantsCodeHybrid = []Op{{Op: "authz", Client: "A", Flow: "code"}, {Op: "auth
 
 func init() {
 	registerCheck("C01", "model_checking", 150*time.Second, 40*time.Minute, func(r *Run) {
-		depth := 5
+		depth := 6
 		if !r.Quick() {
 			depth = 7
 		}
@@ -31,7 +31,7 @@ func init() {
 	})
 
 	registerCheck("C04", "model_checking", 150*time.Second, 40*time.Minute, func(r *Run) {
-		depth := 5
+		depth := 6
 		if !r.Quick() {
 			depth = 7
 		}
@@ -54,7 +54,7 @@ func init() {
 		overlapPart(r, []string{"refresh", "refresh-oidc"})
 	})
 	registerCheck("C08", "model_checking", 150*time.Second, 40*time.Minute, func(r *Run) {
-		depth := 4
+		depth := 5
 		if !r.Quick() {
 			depth = 6
 		}
